@@ -36,7 +36,7 @@ def rewrite_imports(src_rel, mapping):
     return gen
 
 
-def instrument(files, skip="", also=None):
+def instrument(files, skip="", also=None, swap=""):
     """generate() callback for the E4 pause-point explorer: overlay copies of <files> (repo-relative, read from the current
     working tree) with a pause point before every statement and "sync" swapped for the lock-counting shim (tools_instr)."""
     def gen(scratch, repo):
@@ -54,7 +54,7 @@ def instrument(files, skip="", also=None):
             if not os.path.exists(src):
                 raise SystemExit("HARNESS-ERROR: %s not found" % rel)
             dst = os.path.join(scratch, "instr_" + rel.replace("/", "_"))
-            r = subprocess.run([tool, "-out", dst, "-skip", skip, src], capture_output=True, text=True)
+            r = subprocess.run([tool, "-out", dst, "-skip", skip, "-swap", (swap.get(rel, "") if isinstance(swap, dict) else swap), src], capture_output=True, text=True)
             if r.returncode != 0:
                 raise SystemExit("HARNESS-ERROR: instrumenting %s failed: %s" % (rel, r.stderr))
             out[rel] = dst
@@ -64,7 +64,7 @@ def instrument(files, skip="", also=None):
     return gen
 
 
-E4ENGINES = ("choice", "report", "refdns", "env", "sched", "pause", "psync")
+E4ENGINES = ("choice", "report", "refdns", "env", "sched", "pause", "psync", "vnet")
 
 E2ENGINES = ("choice", "report", "refdns", "env", "sched", "vsync", "vxsync", "votter")
 
@@ -594,6 +594,21 @@ SPECS["C18"]["parts"].append(_preempt("transports-preempt", "TestVerifC18", ["zz
 
 SPECS["C01"]["parts"].append(_preempt("pipeline-preempt", "TestVerifC05", ["zz_verif_c05_test.go"],
                                       {"quick": {"PAUSE": 1, "DEPTH": 4, "FAULTS": 1, "CALLS": 2}, "thorough": {"PAUSE": 1, "PAUSEHITS": 2, "DEPTH": 6, "FAULTS": 2, "CALLS": 3}}))
+
+UPSTREAM_SRC = TRANSPORT_SRC + ["internal/upstream/upstream.go"]
+
+
+def _constructed(pause):
+    params = ({"quick": {"PAUSE": 1, "DEPTH": 4, "FAULTS": 1, "SHARDDEPTH": 4}, "thorough": {"PAUSE": 1, "PAUSEHITS": 2, "DEPTH": 6, "FAULTS": 2, "SHARDDEPTH": 4}} if pause else
+              {"quick": {"DEPTH": 6, "FAULTS": 2, "SHARDDEPTH": 4}, "thorough": {"DEPTH": 8, "FAULTS": 3, "SHARDDEPTH": 4}})
+    return dict(name="constructed-preempt" if pause else "constructed", pkg="internal/upstream", run="TestVerifC16P", go="go1.26", env=E3ENV, gomaxprocs=1, engines=E4ENGINES,
+                files=dict(UPSTREAM_COMMON, **{"harness/upstream/zz_verif_c16p_test.go": "internal/upstream/zz_verif_c16p_test.go"}),
+                generate=instrument(UPSTREAM_SRC, swap={"internal/upstream/upstream.go": "net=vnet"}), params=params, budget={"quick": 60, "thorough": 600})
+
+
+for _pid in ("C16", "C18", "C06", "C20"):
+    SPECS[_pid]["parts"].append(_constructed(True))
+SPECS["C16"]["parts"].append(_constructed(False))
 
 # --------------------------------------------------------------------------------------------
 # Properties not (yet) claimed. Kept current: every property without a SPECS entry must be here.
